@@ -31,7 +31,7 @@ func newGen(p *Prog, fn *ssa.Function, con *Contract) *Gen {
 	g := &Gen{p: p, fn: fn, con: con, env: map[ssa.Value]*SV{}, layouts: map[string][]Comp{}, famSort: map[string]string{},
 		declFam: map[string]bool{}, typeTag: map[string]int{}, counts: map[string]int{}, specDecl: map[string]bool{},
 		strConsts: map[string]Val{}, closures: map[*ssa.MakeClosure]*ssa.MakeClosure{}, rangeIters: map[*ssa.Range]Val{},
-		pendingHavoc: map[string]bool{}, famLeaf: map[string]IntInfo{}, famDeclLine: map[string]int{}, axDone: map[string]bool{}, specHeap: map[string]*heapParams{}, cellAddr: map[*ssa.Alloc]*Addr{}}
+		pendingHavoc: map[string]bool{}, famLeaf: map[string]IntInfo{}, famDeclLine: map[string]int{}, axDone: map[string]bool{}, specHeap: map[string]*heapParams{}, famRefLeaf: map[string]bool{}, refAxDone: map[string]bool{}, cellAddr: map[*ssa.Alloc]*Addr{}}
 	if con != nil {
 		g.mode = parseMode(con.Arith)
 	}
@@ -350,7 +350,7 @@ func report(p *Prog, prop, tier string, seed int, results []*FuncResult, loadT, 
 	var kfSeen []string
 	os.MkdirAll(filepath.Join(verifDir, "replays", prop), 0o755)
 	for _, o := range append(failed, vacuous...) {
-		if f := kf.match(prop, o.Name); f != nil {
+		if f := kf.matchClause(prop, o.Name, o.Text); f != nil {
 			fmt.Printf("KNOWN-FINDING: property=%s %s %s\n", prop, o.Name, f.What)
 			kfSeen = append(kfSeen, o.Name)
 			total-- // a listed finding is reported separately and is not part of the proved set
@@ -443,6 +443,9 @@ type knownFinding struct {
 	Obligation string `json:"obligation"`
 	What       string `json:"what"`
 	Status     string `json:"status"` // open | fixed
+	// Clause (optional): the finding is the failure of this contract clause of the function named in Obligation
+	// (text before '#'), at whichever return/iteration ordinal; more stable than the ordinal in Obligation
+	Clause string `json:"clause,omitempty"`
 }
 
 type knownFindings struct{ list []knownFinding }
@@ -462,10 +465,24 @@ func loadKnownFindings() *knownFindings {
 }
 
 func (k *knownFindings) match(prop, obl string) *knownFinding {
+	return k.matchClause(prop, obl, "")
+}
+
+func (k *knownFindings) matchClause(prop, obl, clause string) *knownFinding {
 	for i := range k.list {
 		f := &k.list[i]
-		if f.Status == "open" && f.Property == prop && f.Obligation == obl {
+		if f.Status != "open" || f.Property != prop {
+			continue
+		}
+		if f.Obligation == obl {
 			return f
+		}
+		if f.Clause != "" && strings.TrimSpace(strings.SplitN(clause, "  @", 2)[0]) == f.Clause {
+			fn := strings.SplitN(f.Obligation, "#", 2)[0]
+			kind := strings.SplitN(strings.SplitN(f.Obligation+"#", "#", 3)[1], "[", 2)[0]
+			if strings.HasPrefix(obl, fn+"#"+kind+"[") {
+				return f
+			}
 		}
 	}
 	return nil
